@@ -26,7 +26,7 @@ func init() {
 		Phases: func(tier string, seed int64) []Phase {
 			return []Phase{{Name: "matrix", Run: c08Run}}
 		},
-		MinObserved: []string{"connections_checked", "onclose_events", "handler_exits_recorded", "eof_withheld_until_release_observed", "just_dispatched_endings_checked", "endings_with_a_starttls_handshake_pending"},
+		MinObserved: []string{"connections_checked", "onclose_events", "handler_exits_recorded", "eof_withheld_until_release_observed", "just_dispatched_endings_checked", "endings_with_a_starttls_handshake_pending", "connections_closed_while_another_connection_waits_for_its_handler"},
 	})
 }
 
@@ -402,6 +402,113 @@ func c08OneCell(c *Ctx, wd *c08World, srv *Srv, cell c08Cell, stopper func()) {
 	c.Max("max/handlers_in_flight_at_an_ending", int64(k))
 }
 
+// c08Independence: connection A ends while one of its handlers is parked (so A's own teardown has to wait - that is
+// the property). Meanwhile OTHER connections, which have no handler running, end by FIN or Unbind: each of them is
+// closed and reported through OnClose within 10s (bounded progress, own bound) while A's handler is still held.
+func c08Independence(c *Ctx, wd *c08World, round int) {
+	srv, err := startSrv(SrvCfg{}, wd.register)
+	if err != nil {
+		c.Inconclusive("server start: " + err.Error())
+		return
+	}
+	defer srv.StopWithin(patience)
+	open := func(tag string) (net.Conn, *Client, int) {
+		cn, err := net.Dial("tcp", srv.Addr)
+		if err != nil {
+			return nil, nil, 0
+		}
+		cl := wrapClient(cn)
+		cl.Send(c08Search(2, tag+";quick"))
+		if m, err := cl.ReadMsg(patience); err != nil || m.ID != 2 {
+			cn.Close()
+			return nil, nil, 0
+		}
+		t := wd.track(tag)
+		t.mu.Lock()
+		id := t.connID
+		t.mu.Unlock()
+		return cn, cl, id
+	}
+	tagA := fmt.Sprintf("t%d", c08TagCtr.Add(1))
+	a, acl, aID := open(tagA)
+	if a == nil {
+		c.Inconclusive("independence: connect")
+		return
+	}
+	ta := wd.track(tagA)
+	acl.Send(c08Search(10, tagA+";park"))
+	for dl := time.Now().Add(patience); ta.entered.Load() < 2 && time.Now().Before(dl); time.Sleep(100 * time.Microsecond) {
+	}
+	var others []net.Conn
+	var ids []int
+	for k := 0; k < 4; k++ {
+		cn, _, id := open(fmt.Sprintf("t%d", c08TagCtr.Add(1)))
+		if cn != nil {
+			others = append(others, cn)
+			ids = append(ids, id)
+		}
+	}
+	// A ends
+	switch round % 3 {
+	case 0:
+		closeWrite(a)
+	case 1:
+		hardReset(a)
+	default:
+		acl.Send(sber.Message(90, sber.UnbindRequest(), nil).Encode())
+	}
+	time.Sleep(20 * time.Millisecond)
+	// the others end
+	for k, cn := range others {
+		if k%2 == 0 {
+			closeWrite(cn)
+		} else {
+			cn.Write(sber.Message(91, sber.UnbindRequest(), nil).Encode())
+		}
+	}
+	reported := func(id int) bool {
+		for _, ev := range srv.Closes() {
+			if ev.ID == id {
+				return true
+			}
+		}
+		return false
+	}
+	late := 0
+	for k, cn := range others {
+		cn.SetReadDeadline(time.Now().Add(10 * time.Second))
+		buf := make([]byte, 4096)
+		eof := false
+		for {
+			_, err := cn.Read(buf)
+			if err == nil {
+				continue
+			}
+			eof = !isTimeout(err)
+			break
+		}
+		ok := eof
+		for dl := time.Now().Add(10 * time.Second); ok && !reported(ids[k]) && time.Now().Before(dl); time.Sleep(time.Millisecond) {
+		}
+		if !ok || !reported(ids[k]) {
+			late++
+		}
+		cn.Close()
+	}
+	stillHeld := !reported(aID)
+	if late > 0 && stillHeld {
+		c.Violate("closing a connection waits for the handlers of another connection", fmt.Sprintf("connection %d ended with a handler still parked; %d of %d other connections (no handler running) that ended afterwards were not closed and reported through OnClose within 10s", aID, late, len(others)), map[string]any{"round": round})
+	}
+	c.Count("connections_closed_while_another_connection_waits_for_its_handler", int64(len(others)-late))
+	close(ta.gate)
+	for dl := time.Now().Add(patience); !reported(aID) && time.Now().Before(dl); time.Sleep(time.Millisecond) {
+	}
+	if !reported(aID) {
+		c.Violate("OnClose not called for an ended connection", fmt.Sprintf("connection %d (independence round %d) after its handler was released", aID, round), nil)
+	}
+	a.Close()
+}
+
 func c08Run(c *Ctx) { c08RunWith(c, 0, 0) }
 
 // c08RunWith runs the matrix; writeEntries > 0 shrinks the "writing" handlers' output
@@ -486,6 +593,9 @@ func c08RunWith(c *Ctx, writeEntries, sweeps int) {
 			}()
 		}
 		wg.Wait()
+	}
+	for round := 0; round < c.N(3, 30); round++ {
+		c08Independence(c, wd, round)
 	}
 	// every connection has ended but the long-lived servers are still running: apart from their accept loops no
 	// goroutine with a gldap frame may remain (a per-connection helper that outlives its connection is a leak even
